@@ -10,6 +10,9 @@ use std::task::{Context, Poll, Waker};
 /// The buffer handed to `with_buffer` for constructor tag `e` (empty), `c` (empty with capacity), `d` (dirty: 37
 /// bytes 0xAA), `D` (dirty: 613 bytes 0x5C); `n` is `new`.  A reader / writer must behave the same whatever the
 /// buffer it was given contains.
+/// the `<maxlen>` argument: a number, or `d` = leave the constructor's default (documented: 512 KiB of payload)
+fn maxlen(s: &str) -> Option<Option<u32>> { if s == "d" { Some(None) } else { s.parse::<u32>().ok().map(Some) } }
+
 fn ctor_buf(tag: &str) -> Option<Option<Vec<u8>>> {
     Some(match tag {
         "n" => None,
@@ -26,12 +29,13 @@ pub fn fwrite(w: &[&str]) -> Option<String> { fwrite_with("n", w) }
 pub fn fwriteb(w: &[&str]) -> Option<String> { fwrite_with(w.first()?, &w[1..]) }
 fn fwrite_with(ctor: &str, w: &[&str]) -> Option<String> {
     let [ml, vs, sc] = w else { return None };
-    let (ml, vs, sc) = (ml.parse::<u32>().ok()?, parse_vals(vs)?, parse_script(sc)?);
+    let (ml, vs, sc) = (maxlen(ml)?, parse_vals(vs)?, parse_script(sc)?);
     let mut wr = match ctor_buf(ctor)? { None => Writer::new(Snk::new(sc)), Some(b) => Writer::with_buffer(Snk::new(sc), b) };
-    wr.set_max_len(ml);
+    if let Some(ml) = ml { wr.set_max_len(ml) }
+    calls_reset();
     let rs: Vec<String> = vs.iter().map(|v| show_write(&wr.write(v))).collect();
     let (snk, buf) = wr.into_parts();
-    Some(format!("{} {} buf={}", join_or_dash(&rs), hex(&snk.out), buf.len()))
+    Some(format!("{} {} buf={} enc={}", join_or_dash(&rs), hex(&snk.out), buf.len(), enc_calls()))
 }
 
 /// `fread <maxlen> <nreads> <streamhex> <script>`
@@ -39,9 +43,10 @@ pub fn fread(w: &[&str]) -> Option<String> { fread_with("n", w) }
 pub fn freadb(w: &[&str]) -> Option<String> { fread_with(w.first()?, &w[1..]) }
 fn fread_with(ctor: &str, w: &[&str]) -> Option<String> {
     let [ml, n, st, sc] = w else { return None };
-    let (ml, n, st, sc) = (ml.parse::<u32>().ok()?, n.parse::<usize>().ok()?, unhex(st)?, parse_script(sc)?);
+    let (ml, n, st, sc) = (maxlen(ml)?, n.parse::<usize>().ok()?, unhex(st)?, parse_script(sc)?);
     let mut rd = match ctor_buf(ctor)? { None => Reader::new(Src::new(st, sc)), Some(b) => Reader::with_buffer(Src::new(st, sc), b) };
-    rd.set_max_len(ml);
+    if let Some(ml) = ml { rd.set_max_len(ml) }
+    calls_reset();
     peak_reset();
     let mut rs = Vec::new();
     for _ in 0 .. n {
@@ -49,7 +54,7 @@ fn fread_with(ctor: &str, w: &[&str]) -> Option<String> {
         rs.push(show_read(&r));
     }
     let (src, buf) = rd.into_parts();
-    Some(format!("{} rem={} buf={} peak={}", join_or_dash(&rs), src.remaining(), buf.len(), peak()))
+    Some(format!("{} rem={} buf={} peak={} dec={}", join_or_dash(&rs), src.remaining(), buf.len(), peak(), dec_calls()))
 }
 
 /// `aread <maxlen> <streamhex> <script> <acts>`; acts: `p` poll (calling `read()` if no future
@@ -61,11 +66,12 @@ pub fn areadb(w: &[&str]) -> Option<String> { aread_with(w.first()?, &w[1..], No
 pub fn areadm(w: &[&str]) -> Option<String> { let k = w.get(4)?.parse::<u32>().ok()?; aread_with("n", &w[.. 4], Some(k)) }
 fn aread_with(ctor: &str, w: &[&str], setmax: Option<u32>) -> Option<String> {
     let [ml, st, sc, acts] = w else { return None };
-    let (ml, st, sc) = (ml.parse::<u32>().ok()?, unhex(st)?, parse_script(sc)?);
+    let (ml, st, sc) = (maxlen(ml)?, unhex(st)?, parse_script(sc)?);
     let acts: Vec<char> = if *acts == "-" { Vec::new() } else { acts.chars().collect() };
     if acts.iter().any(|c| *c != 'p' && *c != 'd' && !(*c == 'm' && setmax.is_some())) { return None }
     let mut rd = match ctor_buf(ctor)? { None => AsyncReader::new(Src::new(st, sc)), Some(b) => AsyncReader::with_buffer(Src::new(st, sc), b) };
-    rd.set_max_len(ml);
+    if let Some(ml) = ml { rd.set_max_len(ml) }
+    calls_reset();
     let mut cx = Context::from_waker(Waker::noop());
     peak_reset();
     let mut out: Vec<String> = Vec::new();
@@ -91,7 +97,7 @@ fn aread_with(ctor: &str, w: &[&str], setmax: Option<u32>) -> Option<String> {
         // the future is dropped here (completed, dropped by the script, or end of the scenario)
     }
     let (src, buf) = rd.into_parts();
-    Some(format!("{} rem={} buf={} peak={}", join_or_dash(&out), src.remaining(), buf.len(), peak()))
+    Some(format!("{} rem={} buf={} peak={} dec={}", join_or_dash(&out), src.remaining(), buf.len(), peak(), dec_calls()))
 }
 
 #[derive(Clone, Copy, PartialEq)]
@@ -106,7 +112,7 @@ pub fn awriteb(w: &[&str]) -> Option<String> { awrite_with(w.first()?, 0, &w[1..
 pub fn awritef(w: &[&str]) -> Option<String> { awrite_with("n", w.first()?.parse::<u8>().ok()?, &w[1..]) }
 fn awrite_with(ctor: &str, flush_mode: u8, w: &[&str]) -> Option<String> {
     let [ml, vs, sc, acts] = w else { return None };
-    let (ml, vs, sc) = (ml.parse::<u32>().ok()?, parse_vals(vs)?, parse_script(sc)?);
+    let (ml, vs, sc) = (maxlen(ml)?, parse_vals(vs)?, parse_script(sc)?);
     let acts: Vec<WAct> = split_list(acts).into_iter().map(|a| match a {
         "s" => Some(WAct::Sync),
         "p" => Some(WAct::Poll),
@@ -115,7 +121,8 @@ fn awrite_with(ctor: &str, flush_mode: u8, w: &[&str]) -> Option<String> {
         _ => a.strip_prefix('w').and_then(|k| k.parse::<usize>().ok()).filter(|k| *k < vs.len()).map(WAct::Write)
     }).collect::<Option<_>>()?;
     let mut wr = match ctor_buf(ctor)? { None => AsyncWriter::new(Snk::with_flush(sc, flush_mode)), Some(b) => AsyncWriter::with_buffer(Snk::with_flush(sc, flush_mode), b) };
-    wr.set_max_len(ml);
+    if let Some(ml) = ml { wr.set_max_len(ml) }
+    calls_reset();
     let mut cx = Context::from_waker(Waker::noop());
     let mut out: Vec<String> = Vec::new();
     let mut i = 0;
@@ -150,5 +157,5 @@ fn awrite_with(ctor: &str, flush_mode: u8, w: &[&str]) -> Option<String> {
         }
     }
     let (snk, buf) = wr.into_parts();
-    Some(format!("{} {} buf={}", join_or_dash(&out), hex(&snk.out), buf.len()))
+    Some(format!("{} {} buf={} enc={}", join_or_dash(&out), hex(&snk.out), buf.len(), enc_calls()))
 }
